@@ -436,10 +436,27 @@ def _check(run, pid):
         stats["objects"] += len(images)
         stats["calls"] += sum(len(c) for _, c in images)
         results = {}
-        for tgt, (exe, spec) in per_target.items():
-            res, rc, last, err = run_driver(exe, images)
-            if rc != 0 or len(res) != len(images):
-                raise C.MachineryError(f"driver {tgt} failed rc={rc} at {last}: {err[-800:]}")
+        crashed = 0
+        for tgt in list(per_target):
+            exe, spec = per_target[tgt]
+            while True:
+                res, rc, last, err = run_driver(exe, images)
+                if rc == 0 and len(res) == len(images):
+                    break
+                m = re.match(r"CALL (\d+) (\d+)", last or "")
+                if rc >= 0 or not m or crashed > 20:
+                    raise C.MachineryError(f"driver {tgt} failed rc={rc} at {last}: {err[-800:]}")
+                # the process died inside a generated accessor called with in-range indices on a well-formed object:
+                # an access outside the buffer image.  Report it, drop that object and go on with the others.
+                crashed += 1
+                w, key, desc = meta[int(m.group(1))]
+                d = desc[int(m.group(2))]
+                run.report(f"crash:signal{-rc}:{d['k']}:{path_class(w.handles[key]['tx'], d['path'])}" + (f":{tgt}" if pid == "C15" else ""),
+                           f"{d['name']} idx={d['idx']} on an object of {X.key(w.handles[key]['tx'])[:200]} at offset {key[1]} ({tgt}): the driver process was killed by signal {-rc} inside the call",
+                           dict(seed=seed, world=w.index, name=d["name"], idx=d["idx"]))
+                del images[int(m.group(1))], meta[int(m.group(1))]
+                for t2 in results:
+                    del results[t2][int(m.group(1))]
             results[tgt] = res
         if pid == "C15":
             base = results["cpu_serial"]
